@@ -58,7 +58,8 @@ def run(ctx):
                 continue
             calls = [e for e in p.events if e.kind == 'call' and e.ftext == 'parse.into_sink']
             n += 1
-            ok = len(calls) == 1 and (calls[0].argtext(0) or '').startswith(stream) and calls[0].argtext(1) in ('output',) and calls[0].argtext(2) == 'connection_id_sink'
+            a0 = calls[0].argtext(0) or '' if calls else ''
+            ok = len(calls) == 1 and (a0.startswith(stream) or (stream == 'sys.stdin' and a0.startswith('open(sys.stdin.fileno()'))) and calls[0].argtext(1) in ('output',) and calls[0].argtext(2) == 'connection_id_sink'
             ctx.check(ok, 'C13.1', 'into_sink:%s' % f.name, f.loc(calls[0].node if calls else None), '%s parses its stream exactly once into the given output and sink' % f.name,
                       '%s calls %s' % (f.name, [e.text[:120] for e in calls]))
         ctx.floor('C13.1', n, 1, 'normal path of ' + q)
